@@ -41,7 +41,15 @@ def compact (w : World) : World :=
     starting := tab w.n w.starting world0.starting,
     automate := tab w.n w.automate world0.automate,
     recv := tab (6 * w.n) w.recv world0.recv,
-    failed := tab w.n w.failed world0.failed }
+    failed := tab w.n w.failed world0.failed,
+    deps := tab w.n w.deps world0.deps,
+    parent := tab w.n w.parent world0.parent,
+    isWf := tab w.n w.isWf world0.isWf,
+    hasExec := tab w.n w.hasExec world0.hasExec,
+    fails := tab w.n w.fails world0.fails,
+    truth := tab w.n w.truth world0.truth,
+    running := tab w.n w.running world0.running,
+    hit := tab w.n w.hit world0.hit }
 
 def bit (b : Bool) : String := if b then "1" else "0"
 
